@@ -15,6 +15,27 @@ pub struct NormCheck {
     pub prop: &'static str,
 }
 
+/// pinned reproducers of known findings: (finding id, note text of key n1). The library also
+/// holds n2 = "# Title Two". Every clause the oracle reports on one of these is tagged
+/// `pinned:<id>` and is only accepted if known-findings.txt lists exactly that signature.
+pub const PINNED: &[(&str, &str)] = &[
+    ("soft-break", "line one\nline two\n"),
+    ("hard-break", "hard  \nbreak\n"),
+    ("table-cell-code", "| a |\n|---|\n| `x` |\n"),
+    ("table-cell-image", "| a |\n|---|\n| ![alt](i.png) |\n"),
+    ("table-cell-wiki", "| a |\n|---|\n| [[n2]] |\n"),
+    ("item-rule", "- item\n\n  ***\n"),
+    ("item-table", "- item\n\n  | a |\n  |---|\n  | b |\n"),
+    ("tight-item-tail", "- a\n  ```\n  code\n  ```\n  tail\n"),
+    ("item-heading-text", "- # head\n  text\n"),
+    ("escapes", "\\*not emph\\* and 1\\. x\n\n1\\. not a list\n"),
+    ("adjacent-lists", "- a\n\n* b\n"),
+    ("adjacent-quotes-in-item", "- a\n\n  > q1\n\n  > q2\n- b\n"),
+    ("dashes-open-quote", "> ---\n>\n> > ---\n\n# h\n\n---\n\nlast\n"),
+    ("image-in-ref-text", "para\n\n[![alt](i.png) text](n2)\n"),
+    ("title-with-link", "# About [x](n2)\n\n[old](n1)\n"),
+];
+
 fn to_state(texts: &BTreeMap<String, String>) -> HashMap<String, String> {
     texts.iter().map(|(k, v)| (k.clone(), v.clone())).collect()
 }
@@ -47,6 +68,10 @@ pub fn lib_opts(tier: Tier, rng: &mut Rng) -> LibOpts {
     o
 }
 
+fn random_cases(tier: Tier) -> u64 {
+    tier.pick(3000, 60000)
+}
+
 impl Check for NormCheck {
     fn id(&self) -> &'static str {
         self.prop
@@ -65,7 +90,7 @@ impl Check for NormCheck {
     }
     fn plan(&self, tier: Tier, _seed: u64) -> Plan {
         Plan {
-            cases: tier.pick(400, 20000),
+            cases: random_cases(tier) + PINNED.len() as u64,
             procs: 16,
             wall_s: 120,
             cpu_s: None,
@@ -79,7 +104,25 @@ impl Check for NormCheck {
         let mut rep = CaseReport::new(case);
         let mut rng = Rng::for_case(seed, "norm", case);
         let o = lib_opts(tier, &mut rng);
-        let lib = libgen::gen_lib(&mut rng, &o);
+        let pinned = if case >= random_cases(tier) {
+            Some(PINNED[(case - random_cases(tier)) as usize])
+        } else {
+            None
+        };
+        let locus = pinned.map(|p| format!("pinned:{}", p.0)).unwrap_or_else(|| "clean".to_string());
+        let locus = locus.as_str();
+        let lib = match pinned {
+            Some((_, text)) => {
+                let mut texts = BTreeMap::new();
+                texts.insert("n1".to_string(), text.to_string());
+                texts.insert("n2".to_string(), "# Title Two\n".to_string());
+                libgen::Lib { docs: BTreeMap::new(), texts, artefacts: 0 }
+            }
+            None => libgen::gen_lib(&mut rng, &o),
+        };
+        if pinned.is_some() {
+            rep.count("pinned_reproducers", 1);
+        }
         rep.count("generator_artefacts_dropped", lib.artefacts as u64);
         let view = LibView::new(&lib.texts);
         let replay = |ext: &str| json!({"case": case, "refs_extension": ext, "library": lib.texts});
@@ -88,7 +131,7 @@ impl Check for NormCheck {
             let out1 = match mon::catch(|| export_lib(&lib.texts, ext)) {
                 Ok(o) => o,
                 Err(p) => {
-                    rep.violate("panic", &p.signature(), format!("import/export panicked: {}", p.message), replay(ext));
+                    rep.violate("panic", &format!("{}@{}", p.signature(), locus), format!("import/export panicked: {}", p.message), replay(ext));
                     continue;
                 }
             };
@@ -99,7 +142,7 @@ impl Check for NormCheck {
             let out2 = match mon::catch(|| export_lib(&out1, ext)) {
                 Ok(o) => o,
                 Err(p) => {
-                    rep.violate("panic", &p.signature(), format!("re-import panicked: {}", p.message), replay(ext));
+                    rep.violate("panic", &format!("{}@{}", p.signature(), locus), format!("re-import panicked: {}", p.message), replay(ext));
                     continue;
                 }
             };
@@ -124,7 +167,7 @@ impl Check for NormCheck {
                     _ => vec![],
                 };
                 for df in diffs.iter().take(3) {
-                    rep.violate(df.clause, "clean", format!("note {} ext `{}`: {}", key, ext, df.detail),
+                    rep.violate(df.clause, locus, format!("note {} ext `{}`: {}", key, ext, df.detail),
                         json!({"case": case, "refs_extension": ext, "key": key, "input": text, "output": o1, "library": lib.texts}));
                 }
                 if self.prop == "C02" {
@@ -132,7 +175,7 @@ impl Check for NormCheck {
                     let o2 = &out2[key];
                     if o1 != o2 {
                         let l = first_diff_line(o1, o2);
-                        rep.violate("not-fixpoint", "clean", format!("note {} ext `{}` library pass 2 differs at line {}: {:?} vs {:?}", key, ext, l.0, l.1, l.2),
+                        rep.violate("not-fixpoint", locus, format!("note {} ext `{}` library pass 2 differs at line {}: {:?} vs {:?}", key, ext, l.0, l.1, l.2),
                             json!({"case": case, "refs_extension": ext, "key": key, "input": text, "pass1": o1, "pass2": o2, "library": lib.texts}));
                     }
                     // fixpoint alone (single-note graph)
@@ -146,11 +189,11 @@ impl Check for NormCheck {
                             rep.count("single_note_passes", 1);
                             if a1 != a2 {
                                 let l = first_diff_line(&a1, &a2);
-                                rep.violate("not-fixpoint-alone", "clean", format!("note {} ext `{}` alone: pass 2 differs at line {}: {:?} vs {:?}", key, ext, l.0, l.1, l.2),
+                                rep.violate("not-fixpoint-alone", locus, format!("note {} ext `{}` alone: pass 2 differs at line {}: {:?} vs {:?}", key, ext, l.0, l.1, l.2),
                                     json!({"case": case, "refs_extension": ext, "key": key, "input": text, "pass1": a1, "pass2": a2}));
                             }
                         }
-                        Err(p) => rep.violate("panic", &p.signature(), format!("single note panicked: {}", p.message), replay(ext)),
+                        Err(p) => rep.violate("panic", &format!("{}@{}", p.signature(), locus), format!("single note panicked: {}", p.message), replay(ext)),
                     }
                 }
             }
@@ -170,12 +213,12 @@ impl Check for NormCheck {
                         for (k, v) in &out1 {
                             if e.get(k) != Some(v) && self.prop == "C02" {
                                 let l = first_diff_line(v, e.get(k).map(|s| s.as_str()).unwrap_or(""));
-                                rep.violate("not-fixpoint-update", "clean", format!("note {} ext `{}` after update_document(own output): line {}: {:?} vs {:?}", k, ext, l.0, l.1, l.2),
+                                rep.violate("not-fixpoint-update", locus, format!("note {} ext `{}` after update_document(own output): line {}: {:?} vs {:?}", k, ext, l.0, l.1, l.2),
                                     json!({"case": case, "refs_extension": ext, "key": k, "pass1": v, "after_update": e.get(k), "library": lib.texts}));
                             }
                         }
                     }
-                    Err(p) => rep.violate("panic", &p.signature(), format!("update path panicked: {}", p.message), replay(ext)),
+                    Err(p) => rep.violate("panic", &format!("{}@{}", p.signature(), locus), format!("update path panicked: {}", p.message), replay(ext)),
                 }
             }
         }
@@ -240,4 +283,21 @@ pub fn debug_gen(args: &[String]) {
         }
     }
     println!("notes {} dropped {} ; raw failure reasons {:?}", notes, dropped, reasons);
+}
+
+/// vcheck debug fmt <file> [ext] : format a single note (key n1) and print both passes + oracle diffs
+pub fn debug_fmt(args: &[String]) {
+    let text = std::fs::read_to_string(&args[1]).unwrap();
+    let ext = args.get(2).cloned().unwrap_or_default();
+    let mut texts = BTreeMap::new();
+    texts.insert("n1".to_string(), text.clone());
+    texts.insert("n2".to_string(), "# Title Two\n".to_string());
+    let o1 = export_lib(&texts, &ext);
+    let o2 = export_lib(&o1, &ext);
+    println!("--- pass1\n{}--- pass2 {}\n{}", o1["n1"], if o1["n1"] == o2["n1"] { "(same)" } else { "(DIFFERS)" }, if o1["n1"] == o2["n1"] { "" } else { &o2["n1"] });
+    let view = LibView::new(&texts);
+    let cmp = oracle::compare_norm(&view.scans["n1"], &mdscan::scan(&o1["n1"]), "", &view);
+    for d in cmp.c01 { println!("C01 {} : {}", d.clause, d.detail); }
+    for d in cmp.c06 { println!("C06 {} : {}", d.clause, d.detail); }
+    for d in cmp.c07 { println!("C07 {} : {}", d.clause, d.detail); }
 }
